@@ -316,12 +316,14 @@ B("c15-listcomp", "C15", RSF, "        for o, (v, e) in self.orders.items():\n  
 
 # ----------------------------------------------------------------------------- independently seeded regressions (/verif/seeded/<id>/patch.diff)
 def _hunks(diff_text):
-    """Unified diff -> [(file relative to src/yadism, old block, new block)] per hunk."""
-    out, file, old, new = [], None, None, None
+    """Unified diff -> [(file relative to src/yadism, old block, new block, first line of the hunk)] per hunk."""
+    import re
+
+    out, file, old, new, start = [], None, None, None, None
 
     def flush():
         if file and old is not None and (old or new) and old != new:
-            out.append((file, "".join(old), "".join(new)))
+            out.append((file, "".join(old), "".join(new), start))
 
     for line in diff_text.splitlines(keepends=True):
         if line.startswith("+++ "):
@@ -335,6 +337,8 @@ def _hunks(diff_text):
         elif line.startswith("@@"):
             flush()
             old, new = [], []
+            m = re.match(r"@@ -(\d+)", line)
+            start = int(m.group(1)) if m else None
         elif old is not None:
             if line.startswith("-"):
                 old.append(line[1:])
@@ -363,3 +367,21 @@ def _seeded():
 
 
 _seeded()
+
+
+# ----------------------------------------------------------------------------- twins / mutants added with the round-2 strengthenings
+B("c09-zmax-form", "C09", CFD + "heavy/partonic_channel.py", "        shat = self.ESF.Q2 * (1 - z) / z\n        return shat <= 4 * self.m2hq",
+  "        zmax = self.ESF.Q2 / (self.ESF.Q2 + 4.0 * self.m2hq)\n        return z >= zmax")
+B("c18-float-negative-power", "C18", CFD + "special/nielsen.py", "    return (B0-H*B2)*X**M/(FCT[M]*M**N)", "    return (B0-H*B2)*X**M*float(M)**(-N)/FCT[M]")
+B("c06-nf-local-alias", "C06", CFD + "__init__.py", "            heavylight.extend(kernels.generate_single_flavor_light(self.esf, nf, hq))",
+  "            active = nf\n            heavylight.extend(kernels.generate_single_flavor_light(self.esf, active, hq))")
+M("c06-light-nf-minus-one", "C06", CFD + "__init__.py", "        comp.extend(light.kernels.generate(self.esf, nf))", "        comp.extend(light.kernels.generate(self.esf, nf - 1))", expect="C06.flow")
+B("c20-get-with-default", "C20", CFD + "coupling_constants.py", '        MW = theory.get("MW")', '        MW = theory.get("MW", None)')
+M("c20-pop-optional", "C20", CFD + "coupling_constants.py", '            "MZ2": theory.get("MZ", 91.1876)', '            "MZ2": theory.pop("MZ", 91.1876)', expect="C20.inputs")
+B("c15-xs-test-by-list", "C15", "output.py", 'ESFResult if len(obj[obs]) == 0 or "y" not in obj[obs][0] else EXSResult',
+  'EXSResult if len(obj[obs]) > 0 and "y" in obj[obs][0] else ESFResult')
+M("c08-asy-missing-mass", "C08", CFD + "asy/kernels.py", "    m2hq = esf.info.m2hq[ihq - 4]\n    asys = []\n    for res in range(pto_evol + 1):\n        name = \"Asy\" + (\"N\" * res) + \"LL\" + \"NonSinglet\"",
+  "    m2hq = esf.info.m2hq[nf - 3]\n    asys = []\n    for res in range(pto_evol + 1):\n        name = \"Asy\" + (\"N\" * res) + \"LL\" + \"NonSinglet\"", expect="C08.mass")
+M("c09-missing-mass", "C09", CFD + "heavy/kernels.py", "    m2hq = esf.info.m2hq[ihq - 4]\n    return (kernels.Kernel(weights[\"ns\"], pcs.NonSinglet(esf, nf, m2hq=m2hq)),)",
+  "    m2hq = esf.info.m2hq[nf - 3]\n    return (kernels.Kernel(weights[\"ns\"], pcs.NonSinglet(esf, nf, m2hq=m2hq)),)", expect="C09.mass")
+M("c10-shared-shift", "C10", "esf/tmc.py", '        self._shifted_kinematics = {"x": self.xi, "Q2": self.Q2}', '        self._shifted_kinematics = kinematics\n        self._shifted_kinematics["x"] = self.xi', expect="C10.shared")
